@@ -66,4 +66,4 @@ Definition f_vis_pos : npath := [0%nat; 0%nat; 0%nat].
 Definition f_res_tree : itree := (INode 1%N (PTag [] [114]%N []) []).
 Definition f_res_me : nsmap := [([120;109;108;110;115]%N, [104;116;116;112;58;47;47;119;119;119;46;119;51;46;111;114;103;47;50;48;48;48;47;120;109;108;110;115;47]%N); ([], [])].
 Definition f_res_expr : xpath_expr := [(LocationPath false [(LocationStep AxChild (NameMatchTest None [98]%N) []); (LocationStep AxChild (NameMatchTest None [97]%N) [(BooleanOperator OpEq (AttributeValue None [120;109;108;110;115]%N) (AnyValue (VStr [117]%N)))])])].
-Definition f_res_after : itree := (INode 1%N (PTag [] [114]%N []) [(INode 2%N (PTag [] [98]%N []) [])]).
+Definition f_res_after : itree := (INode 1%N (PTag [] [114]%N []) []).
